@@ -318,8 +318,17 @@ func sessionC14(r *vk.Run, rng *rand.Rand, idx int) {
 			}
 		}
 		ending = []string{"enter", "esc", "ctrl-c", "abort", "sigterm", "sigint", "become", "accept-post"}[rng.Intn(8)]
+		if hadRaw {
+			// raw bytes may have ended the session a moment ago (an undecodable byte sequence counts as ESC):
+			// a key typed after that would go to the shell behind fzf
+			time.Sleep(150 * time.Millisecond)
+			if _, exited := s.ExitCode(); exited || s.FzfPid() == 0 {
+				ending = "ended-by-history"
+				expCodes = map[int]bool{0: true, 1: true, 130: true}
+			}
+		}
 		// optionally start a command right before leaving, so that the exit overlaps with it
-		if rng.Intn(3) == 0 {
+		if ending != "ended-by-history" && rng.Intn(3) == 0 {
 			s.Post([]string{"execute-silent(sleep 0.5)", "reload(sleep 1.5; seq 3)", "reload(sleep 30.7; seq 3)", "reload(sleep 30.7 | cat)", "refresh-preview", "change-preview(cat {f}; exec sleep 20.5)+refresh-preview", "change-preview(cat {f}; sleep 20.7; echo end)+refresh-preview"}[rng.Intn(7)])
 			situation = "command-running"
 			hist = append(hist, "POST <command before exit>")
@@ -486,7 +495,7 @@ func procList(ps []tty.Proc) string {
 // is the witness. Activity in the trace means slow, not hung: inconclusive.
 func hangVerdict(r *vk.Run, s *tty.Session, wit func(map[string]any) map[string]any, hist []string) {
 	if s.FzfPid() == 0 {
-		r.Inconclusive("fzf is gone but no exit status was recorded (pane closed)")
+		r.Inconclusive(fmt.Sprintf("fzf is gone but no exit status was recorded (pane closed); history tail %v; stderr %q; rcfile %v", tailS(hist, 6), firstLines(s.Stderr(), 2), func() bool { _, ok := s.ExitCode(); return ok }()))
 		return
 	}
 	n1 := len(s.Trace())
